@@ -307,7 +307,7 @@ def _yaml_load(file: TextIO) -> Union[_ConfigNodeV3, _MapNode]:
     # YAML -> Python
     try:
         return yaml.load(file, Loader=Loader)
-    except (yaml.YAMLError, OSError, IOError) as exc:
+    except (yaml.YAMLError, OSError, IOError, UnicodeDecodeError) as exc:
         raise _ConfigurationParseError('YAML loader', f'Cannot load file: {exc}')
 
 
